@@ -467,8 +467,23 @@ func init() {
 							bad = true
 						}
 					}
+					// … and it is compared with the number of frontiers of THIS round: frontiers
+					// are dropped as the walk proceeds, a length taken before the rounds began
+					// can never be reached again (the walk then never ends)
+					stale := false
+					if h := enclosingLoop(b); h != nil {
+						lenSide := bo.X
+						if yLen {
+							lenSide = bo.Y
+						}
+						if lc, ok := stripConv(lenSide).(*ssa.Call); ok && !loopBody(h)[lc.Block()] {
+							stale = true
+						}
+					}
 					if bad {
 						r.bad(key, p.Rel(ifi.Cond.Pos()), what, "the counter is carried over by the loop that contains the test: exhausted frontiers are counted again in every later round")
+					} else if stale {
+						r.bad(key, p.Rel(ifi.Cond.Pos()), what, "the count is compared with a length taken before the rounds began, not with the number of frontiers left in this round: once a frontier has been eliminated the two can never be equal and the search never ends")
 					} else {
 						r.ok(key, p.Rel(ifi.Cond.Pos()), what)
 					}
